@@ -338,10 +338,18 @@ func concurrent(s *simrt.Sim, kind int, tier string) {
 						r.out.n = sl.Len()
 					case "Slice":
 						var b strings.Builder
-						for _, v := range sl.Slice() {
+						snap := sl.Slice()
+						for _, v := range snap {
 							fmt.Fprintf(&b, "%d,", v)
 						}
 						r.out.set = b.String()
+						if s.Choose(2, "appendToSnapshot") == 0 {
+							// what callers do with a slice they were handed: build on it. That is no operation on the
+							// container and must not change what the container holds
+							s.Yield("snapshot.append")
+							snap = append(snap, -(1000 + i.val))
+							_ = snap
+						}
 					}
 				}
 				r.ret = s.Stamp()
